@@ -63,9 +63,7 @@ class ModelCircuit:
         (meaningful for the algebraic classes; for float mode the value itself is used)."""
         if self.mode == "float":
             return None
-        at = {u: [_abs(v) for v in vals] for u, vals in theta.items()}
-        aX = [[abs(v) for v in row] for row in X]
-        return self.d.eval(self.cid, at, aX)
+        return self.d.eval(self.cid, theta, X, absolute=True)
 
 
 def _abs(v):
